@@ -2394,24 +2394,25 @@ class RawAlgorithmsMixIn:
         if numpy.ndim(v_data) == 3:
             D,P,N = v_data.shape
             if out is None:
-                out = numpy.zeros((D,P,N,N),dtype=v_data.dtype)
+                out = numpy.zeros((D,P,N+abs(k),N+abs(k)),dtype=v_data.dtype)
             else:
                 out[...] = 0.
 
             for d in range(D):
                 for p in range(P):
-                    out[d,p] = numpy.diag(v_data[d,p])
+                    out[d,p] = numpy.diag(v_data[d,p], k)
 
             return out
 
         else:
             D,P,M,N = v_data.shape
             if out is None:
-                out = numpy.zeros((D,P,min(M,N)),dtype=v_data.dtype)
+                L = min(M,N-k) if k >= 0 else min(M+k,N)
+                out = numpy.zeros((D,P,max(L,0)),dtype=v_data.dtype)
 
             for d in range(D):
                 for p in range(P):
-                    out[d,p] = numpy.diag(v_data[d,p])
+                    out[d,p] = numpy.diag(v_data[d,p], k)
 
             return out
 
